@@ -32,3 +32,14 @@ PROPS["C18"] = dict(
     required_theorems=["Raptor.C18.ownerSearch_correct", "Raptor.C18.blk_owner_exists", "Raptor.C18.blk_owner_unique",
                        "Raptor.C18.global_of_node_local", "Raptor.C18.node_local_of_global"],
 )
+
+PROPS["C07"] = dict(
+    module="RaptorModel.Props.C07",
+    harnesses=["h_c07"], asan=True,
+    configs=simple("h_c07", [1], [1]),
+    rule=("random sparse matrices (0..10 rows/cols, rectangular, empty, duplicates, explicit zeros, unsorted), every format; "
+          "single operations and chains of <= 3 conversions with sort/move_diag in between (each link one case); add/subtract "
+          "incl. exact cancellation. Non-trivial = input has at least one stored entry; distinct = distinct case text."),
+    trusted=COMMON_TRUST + ["std::sort tie order is canonicalised on both sides", "values are small integers (IEEE arithmetic exact)"],
+    assumptions=["loop <-> fold correspondence of the model is validated by the runs, not proved"],
+)
